@@ -114,8 +114,9 @@ def run(tier):
     v.cov['evaluations'] += res1.checked
     v.cov['samples'].append(dict(kind='E1 case from TLC (RegpMC.tla): corrupted frame | allowed observations', events=e1cases[500:502]))
     v.notes['e0'] = dict(model='RegpMC.tla', cases=r0.distinct, cfg='RegpMC.cfg' if quick else 'RegpMCt.cfg', e1_cases_replayed=len(e1cases))
-    rnd = random.Random(vf.seed())
-    ss = list(scripts(rnd, quick))
+    ss = []
+    for rnd in vf.rounds(tier, 3):
+        ss += list(scripts(rnd, quick))
     vf.trace_flow(v, 'RegpTrace.tla', 'RegpTrace.cfg', 'regp', ss, 'cor')
     # bursts across a checksum-field boundary that the real code accepted as valid frames: the open finding
     import json as _json, glob as _glob, os as _os
